@@ -61,6 +61,14 @@ package xtime
 //@   modifies t.gen, t.timer
 //@   ensures t.gen == old(t.gen) + 1 && t.timer != nil && fresh(t.timer)
 //@   ensures t.timer.dur >= t.d - t.jitter && t.timer.dur <= t.d + t.jitter && (t.jitter > 0 ==> t.timer.dur < t.d + t.jitter)
+// The callback handed to time.AfterFunc (function literal 0) is verified on its own from an arbitrary
+// later state of the ticker (it runs in the timer's goroutine, under the ticker's mutex): it sends a tick
+// only if the ticker's generation is still the one it captured, and when the generation has moved on
+// (Stop, Reset or a newer schedule) it touches neither the channel nor the ticker.
+//@   closure 0: requires t != nil && tickerOK(t) && t.c != nil && !chclosed(t.c)
+//@   after call send[0]: assert t.gen == gen
+//@   closure 0: ensures old(t.gen) != gen ==> chns(t.c) == old(chns(t.c)) && t.gen == old(t.gen) && t.timer == old(t.timer)
+//@   closure 0: ensures old(t.gen) == gen ==> t.gen == old(t.gen) + 1 && t.timer != nil && chns(t.c) <= old(chns(t.c)) + 1
 
 //@ func NewJitterTicker
 //@   props C20
